@@ -21,7 +21,8 @@ class C20(Prop):
                   "every argument order of up to 4 option groups, the recovery in MetaFile.__init__, the configuration "
                   "key mapping and the keyword route - against the intended option record (the pinned commit's config "
                   "mapping of web-seed / out / tracker is a must-fail variant). Conformance: each option subset is "
-                  "supplied through keywords, a generated configuration file and several command-line orders (content "
+                  "supplied through keywords, a generated configuration file, the interactive dialog (scripted answers; "
+                  "it uses the class-based creators) and several command-line orders (content "
                   "path first, last, and right after each list-valued flag; flag aliases); TLC validates that every "
                   "option landed in its documented field and that all members of the group wrote the same file apart "
                   "from the creation date, at the requested location, and nothing else.")
@@ -60,6 +61,8 @@ class C20(Prop):
             out.append(dict(base, route="kw"))
             out.append(dict(base, route="config", announce_key=("announce", "tracker")[g % 2]))
             out.append(dict(base, route="config", explicit_false=True))     # switches spelled out as false
+            if "G" not in S:        # the interactive dialog has no question for alignment
+                out.append(dict(base, route="interactive"))
             present = [f for f in FLAGS if f in S] + ["PROG"]
             shapes = []
             shapes.append(["PATH"] + present)                    # path first
